@@ -77,6 +77,22 @@ static struct ref R[2];
 
 static int nlists(void) { return g.two ? 2 : 1; }
 
+/* Vacuity counters count explored transitions only, not the replayed prefixes: the engine bumps its "transitions"
+ * counter immediately before the apply() of a new transition. */
+static bool g_counting;
+static void detect_new_transition(void) {
+    static int tc = -1;
+    static uint64_t last;
+    if (tc < 0) tc = v_counter("transitions");
+    uint64_t cur = v_sh->slot[v_worker].counters[tc];
+    g_counting = cur != last;
+    last = cur;
+}
+#define EV(name)                                                                                                 \
+    do {                                                                                                         \
+        if (g_counting) V_COUNT(name, 1);                                                                        \
+    } while (0)
+
 static void make_item(uint8_t *buf, int id) {
     for (size_t k = 0; k < g.item; ++k) buf[k] = (uint8_t)(id * 16 + 1 + (int)k * 7 + (int)(k >> 7) * 3);
 }
@@ -296,13 +312,13 @@ static void check_growth(int l, size_t before, size_t idx, const char *nm) {
     size_t cap = aws_array_list_capacity(&L[l]);
     ESX_CHECK(cap > idx, "capacity-sufficient", "%s succeeded but capacity(%s) = %zu does not cover index %zu", nm, lname(l), cap, idx);
     if (before > idx) return;
-    V_COUNT("growth_events", 1);
+    EV("growth_events");
     if (2 * before > idx) {
-        V_COUNT("growth_doubling", 1);
+        EV("growth_doubling");
         /* array_list.h: "the array size will grow by a factor of 2 upon insertion if space is not available" */
         ESX_CHECK(cap == 2 * before, "growth-factor-2", "%s: capacity(%s) grew from %zu to %zu, documented growth is a factor of 2", nm, lname(l), before, cap);
     } else {
-        V_COUNT("growth_exact_or_from_zero", 1);
+        EV("growth_exact_or_from_zero");
     }
 }
 
@@ -350,6 +366,7 @@ static void m_apply(int o) {
     struct ref *r = &R[l];
     char nm[96];
     m_opname(o, nm, sizeof(nm));
+    detect_new_transition();
     size_t v = 0, w = 0;
     resolve(p->p, l, &v);
     resolve(p->q, l, &w);
@@ -365,7 +382,7 @@ static void m_apply(int o) {
             make_item(valbuf, id);
             int rc = p->kind == O_PUSH_BACK ? aws_array_list_push_back(a, valbuf) : aws_array_list_push_front(a, valbuf);
             if (!dyn && (size_t)len0 >= cap0) {
-                V_COUNT("static_refusals", 1);
+                EV("static_refusals");
                 ESX_CHECK(rc == AWS_OP_ERR, "static-refuses-growth", "%s succeeded on a full static list (%d/%zu)", nm, len0, cap0);
                 if (rc == AWS_OP_ERR)
                     ESX_CHECK(aws_last_error() == AWS_ERROR_LIST_EXCEEDS_MAX_SIZE || aws_last_error() == AWS_ERROR_INVALID_INDEX, "static-refusal-error", "%s on a full static list raised error %d", nm, aws_last_error());
@@ -373,7 +390,7 @@ static void m_apply(int o) {
             } else {
                 ESX_CHECK(rc == AWS_OP_SUCCESS, "push-result", "%s failed (error %d) with %d elements, capacity %zu, %s list", nm, aws_last_error(), len0, cap0, dyn ? "dynamic" : "static");
                 if (rc == AWS_OP_SUCCESS) {
-                    if (p->kind == O_PUSH_FRONT && len0 > 0) V_COUNT("push_front_shifts", 1);
+                    if (p->kind == O_PUSH_FRONT && len0 > 0) EV("push_front_shifts");
                     ref_insert(r, p->kind == O_PUSH_BACK ? len0 : 0, id);
                     if (dyn) check_growth(l, cap0, (size_t)len0, nm);
                 }
@@ -397,7 +414,7 @@ static void m_apply(int o) {
             if (v >= (size_t)len0) {
                 r->len = 0;
             } else {
-                if (v > 0) V_COUNT("pop_front_n_partial", 1);
+                if (v > 0) EV("pop_front_n_partial");
                 ref_remove(r, 0, (int)v);
             }
             break;
@@ -407,11 +424,11 @@ static void m_apply(int o) {
             make_item(valbuf, id);
             int rc = aws_array_list_set_at(a, valbuf, v);
             if (v >= (size_t)1 << 32) {
-                V_COUNT("overflow_refusals", 1);
+                EV("overflow_refusals");
                 ESX_CHECK(rc == AWS_OP_ERR, "overflow-refused", "%s (index %zu) succeeded", nm, v);
                 if (!esx_failed) check_unchanged(l, nm);
             } else if (!dyn && v >= cap0) {
-                V_COUNT("static_refusals", 1);
+                EV("static_refusals");
                 ESX_CHECK(rc == AWS_OP_ERR, "static-refuses-growth", "%s (index %zu) succeeded on a static list of %zu items", nm, v, cap0);
                 if (rc == AWS_OP_ERR) /* array_list.h: "In static mode, AWS_ERROR_INVALID_INDEX will be raised if the index is past the bounds" */
                     ESX_CHECK(aws_last_error() == AWS_ERROR_INVALID_INDEX, "static-refusal-error", "%s past a static list raised error %d, documented AWS_ERROR_INVALID_INDEX", nm, aws_last_error());
@@ -420,7 +437,7 @@ static void m_apply(int o) {
                 ESX_CHECK(rc == AWS_OP_SUCCESS, "set-at-result", "%s (index %zu) failed (error %d), length %d capacity %zu", nm, v, aws_last_error(), len0, cap0);
                 if (rc == AWS_OP_SUCCESS) {
                     if (v >= (size_t)len0) {
-                        if (v > (size_t)len0) V_COUNT("gap_sets", 1);
+                        if (v > (size_t)len0) EV("gap_sets");
                         for (size_t i = (size_t)len0; i < v; ++i) r->id[i] = WILD;
                         r->len = (int)v + 1;
                     }
@@ -438,7 +455,7 @@ static void m_apply(int o) {
             } else {
                 ESX_CHECK(rc == AWS_OP_SUCCESS, "erase-result", "%s (index %zu, length %d) failed (error %d)", nm, v, len0, aws_last_error());
                 if (rc == AWS_OP_SUCCESS) {
-                    if (v > 0 && v + 1 < (size_t)len0) V_COUNT("erase_middle", 1);
+                    if (v > 0 && v + 1 < (size_t)len0) EV("erase_middle");
                     ref_remove(r, (int)v, 1);
                 }
             }
@@ -449,11 +466,11 @@ static void m_apply(int o) {
             int t = r->id[v];
             r->id[v] = r->id[w];
             r->id[w] = t;
-            if (v == w) V_COUNT("swap_identical", 1);
-            else if (g.item > 128) V_COUNT("swap_slice_loop_plus_remainder", 1);
-            else if (g.item == 128) V_COUNT("swap_slice_loop_exact", 1);
-            else V_COUNT("swap_remainder_only", 1);
-            if (v != w && (r->id[v] == WILD || r->id[w] == WILD)) V_COUNT("wildcard_moves", 1);
+            if (v == w) EV("swap_identical");
+            else if (g.item > 128) EV("swap_slice_loop_plus_remainder");
+            else if (g.item == 128) EV("swap_slice_loop_exact");
+            else EV("swap_remainder_only");
+            if (v != w && (r->id[v] == WILD || r->id[w] == WILD)) EV("wildcard_moves");
             break;
         }
         case O_SORT: {
@@ -467,7 +484,7 @@ static void m_apply(int o) {
                         r->id[j] = t;
                         moved = true;
                     }
-            if (moved) V_COUNT("sort_reorders", 1);
+            if (moved) EV("sort_reorders");
             break;
         }
         case O_COPY: {
@@ -477,15 +494,15 @@ static void m_apply(int o) {
             if (rt->cap >= (size_t)len0 || g.dyn[t]) {
                 ESX_CHECK(rc == AWS_OP_SUCCESS, "copy-result", "%s failed (error %d): %d elements into a %s list of capacity %zu", nm, aws_last_error(), len0, g.dyn[t] ? "dynamic" : "static", rt->cap);
                 if (rc == AWS_OP_SUCCESS) {
-                    if (rt->cap >= (size_t)len0) V_COUNT("copy_in_place", 1);
-                    else V_COUNT("copy_reallocates", 1);
-                    if (rt->len > len0) V_COUNT("copy_shortens_destination", 1);
-                    if (has_wild(l)) V_COUNT("wildcard_moves", 1);
+                    if (rt->cap >= (size_t)len0) EV("copy_in_place");
+                    else EV("copy_reallocates");
+                    if (rt->len > len0) EV("copy_shortens_destination");
+                    if (has_wild(l)) EV("wildcard_moves");
                     memcpy(rt->id, r->id, sizeof(r->id));
                     rt->len = len0;
                 }
             } else {
-                V_COUNT("copy_refused_static_too_small", 1);
+                EV("copy_refused_static_too_small");
                 ESX_CHECK(rc == AWS_OP_ERR, "static-refuses-growth", "%s succeeded: %d elements into a static list of %zu", nm, len0, rt->cap);
                 if (rc == AWS_OP_ERR)
                     ESX_CHECK(aws_last_error() == AWS_ERROR_DEST_COPY_TOO_SMALL, "copy-error", "%s into a too small static list raised error %d", nm, aws_last_error());
@@ -501,11 +518,11 @@ static void m_apply(int o) {
                 /* array_list.h: "shrinks the allocated array size to the minimum amount necessary to store its elements" */
                 ESX_CHECK(aws_array_list_capacity(a) == (size_t)len0, "shrink-capacity", "%s: capacity %zu after shrinking a list of %d elements", nm, aws_array_list_capacity(a), len0);
                 if (cap0 > (size_t)len0) {
-                    if (len0) V_COUNT("shrink_reallocates", 1);
-                    else V_COUNT("shrink_empty_drops_buffer", 1);
+                    if (len0) EV("shrink_reallocates");
+                    else EV("shrink_empty_drops_buffer");
                 }
             } else {
-                V_COUNT("static_refusals", 1);
+                EV("static_refusals");
                 if (rc == AWS_OP_ERR) ESX_CHECK(aws_last_error() == AWS_ERROR_LIST_STATIC_MODE_CANT_SHRINK, "shrink-error", "%s on a static list raised error %d", nm, aws_last_error());
                 if (!esx_failed) check_unchanged(l, nm);
             }
@@ -524,19 +541,19 @@ static void m_apply(int o) {
             struct ref tmp = *r;
             *r = R[t];
             R[t] = tmp;
-            if (r->len && R[t].len) V_COUNT("swap_contents_both_nonempty", 1);
+            if (r->len && R[t].len) EV("swap_contents_both_nonempty");
             ESX_CHECK(aws_array_list_capacity(a) == r->cap && aws_array_list_capacity(&L[t]) == R[t].cap, "swap-contents-capacity", "%s: capacities %zu/%zu, expected %zu/%zu", nm, aws_array_list_capacity(a), aws_array_list_capacity(&L[t]), r->cap, R[t].cap);
             break;
         }
         case O_ENSURE: {
             int rc = aws_array_list_ensure_capacity(a, v);
             if (v >= (size_t)1 << 32) {
-                V_COUNT("overflow_refusals", 1);
+                EV("overflow_refusals");
                 ESX_CHECK(rc == AWS_OP_ERR, "overflow-refused", "%s (index %zu) succeeded", nm, v);
                 if (!esx_failed) check_unchanged(l, nm);
             } else if (!dyn) {
                 if (v >= cap0) {
-                    V_COUNT("static_refusals", 1);
+                    EV("static_refusals");
                     ESX_CHECK(rc == AWS_OP_ERR, "static-refuses-growth", "%s (index %zu) succeeded on a static list of %zu items", nm, v, cap0);
                     if (rc == AWS_OP_ERR) /* documented for static mode */
                         ESX_CHECK(aws_last_error() == AWS_ERROR_INVALID_INDEX, "static-refusal-error", "%s past a static list raised error %d, documented AWS_ERROR_INVALID_INDEX", nm, aws_last_error());
@@ -557,13 +574,26 @@ static void m_apply(int o) {
 static size_t m_canon(uint8_t *b, size_t cap) {
     (void)cap;
     size_t o = 0;
+    /* Family al2 has no sort: element bytes are an opaque payload there and nothing depends on the numeric value of
+     * an id, only on which elements are the same one, so ids are renamed in order of first appearance (A, then B).
+     * A fresh id is then again "an id nobody holds".  Family al1 sorts by id, so ids are kept as they are. */
+    uint8_t ren[64];
+    int next = 1;
+    memset(ren, 0, sizeof(ren));
     for (int l = 0; l < nlists(); ++l) {
         b[o++] = (uint8_t)(L[l].alloc != NULL);
         memcpy(b + o, &L[l].current_size, sizeof(size_t));
         o += sizeof(size_t);
         b[o++] = (uint8_t)(L[l].data != NULL);
         b[o++] = (uint8_t)R[l].len;
-        for (int i = 0; i < R[l].len; ++i) b[o++] = (uint8_t)R[l].id[i];
+        for (int i = 0; i < R[l].len; ++i) {
+            int id = R[l].id[i];
+            if (g.two && id != WILD) {
+                if (!ren[id]) ren[id] = (uint8_t)next++;
+                id = ren[id];
+            }
+            b[o++] = (uint8_t)id;
+        }
     }
     return o;
 }
@@ -633,6 +663,7 @@ static const char *store_name(int dyn, size_t n0, char *buf, size_t cap) {
 }
 
 static int g_rc;
+static const char *g_only; /* --only <substring>: developer aid, restricts a run to matching configurations */
 static void run_cfg(size_t item, int two, int maxlen, int dynA, size_t nA, int dynB, size_t nB, bool in_tier) {
     char sa[24], sb[24];
     memset(&g, 0, sizeof(g));
@@ -654,8 +685,11 @@ static void run_cfg(size_t item, int two, int maxlen, int dynA, size_t nA, int d
         return;
     }
     if (!in_tier) return;
+    if (g_only && !strstr(g.name, g_only)) return;
     model.max_depth = ESX_MAX_DEPTH;
+    double t0 = v_now();
     esx_run(&model);
+    v_out("INFO   %s: %d symbols, %.1f s", g.name, nops, v_now() - t0);
 }
 
 int main(int argc, char **argv) {
@@ -667,6 +701,8 @@ int main(int argc, char **argv) {
         size_t n0;
     } st1[] = {{1, 0}, {1, 1}, {1, 2}, {0, 2}, {0, 3}};
     bool th = v_thorough();
+    for (int i = 1; i + 1 < argc; ++i)
+        if (!strcmp(argv[i], "--only")) g_only = argv[i + 1];
     /* family 1: single list.  A replay token names its configuration, so every configuration of every tier is
      * visited when replaying. */
     for (int i = 0; i < 6; ++i)
